@@ -61,6 +61,16 @@ def run(ctx):
             held = [l.split(" ")[0] for l in r2.snaps[-1] if l.split(" ")[1] == "f" and l.split(" ")[0].startswith("w/") and ".kismet_temp/" not in l.split(" ")[0] and l.split(" ")[0].rsplit("/", 1)[1] == CR.KEY[0]]
             if cls3 == "OkSome" and not held:
                 violations.append({"what": "after the crash, ensure of the same key by a fresh process reports success but the key is not in the write cache", "classification": {"kind": "ensure-does-not-publish"}, "replay": replay})
+        # finishing the interrupted publication from the staging name the crash left behind: success consumes it
+        extra = getattr(r2, "extra", None)
+        if extra is not None and extra.results:
+            kind_x, rest_x = extra.results[max(extra.results)]
+            cls_x, d_x = S.fields(rest_x)
+            if cls_x.startswith("Err") or cls_x == "Panic":
+                violations.append({"what": "after the crash, publishing the staging file it left behind fails: %s" % cls_x, "classification": {"kind": "unusable", "op": "set_path"}, "replay": dict(replay, then_republish="set <key> stage/src1")})
+            elif extra.snaps and any(l.split(" ")[0] == "stage/src1" for l in extra.snaps[-1]):
+                violations.append({"what": "after the crash, set(key, <the staging file the crashed call left behind>) reports success but does not consume the file: it stays behind%s" % (", hard-linked to the published entry" if any(l.split(" ")[0] == "stage/src1" and l.split(" ")[3] != "1" for l in extra.snaps[-1]) else ""),
+                                   "classification": {"kind": "source-not-consumed"}, "replay": dict(replay, then_republish="set <key> stage/src1")})
         last = r2.results.get(max(r2.results)) if r2.results else None
         # (in the over-capacity pre-state the cache may legitimately evict the key again)
         if last and desc["pre"] != "over" and not last[1].startswith("OkSome content=Q"):
@@ -99,7 +109,7 @@ def run(ctx):
         if k not in seen:
             seen.add(k); uniq.append(v)
     cov = {"evaluations": len(res), "distinct_nontrivial": nontriv,
-           "rule": "operation {set, put, set_temp_file, ensure (miss and promotion of a secondary hit), get_or_update Replace, temp-directory creation} x front-end {plain, sharded} x pre-state {empty directory, directories missing, key present, over capacity so that maintenance runs, secondary hit}: the process is killed before EVERY filesystem call of the operation (and after the last); then a fresh process snapshots the tree and runs get/touch/ensure (of the crashed operation's key: it must end up in the write cache)/put/set/ensure/get; two hours later (scripted clock) another process writes with maintenance firing. Oracles: key-named files complete and read-only, debris only under .kismet_temp, all later operations succeed with normal semantics, young debris left alone, old debris of a maintained directory reclaimed; everything compared with the model crashed at the same call. Non-trivial = the boundary lies after the first and before the last mutating call.",
+           "rule": "operation {set, put, set_temp_file, ensure (miss and promotion of a secondary hit), get_or_update Replace, temp-directory creation} x front-end {plain, sharded} x pre-state {empty directory, directories missing, key present, over capacity so that maintenance runs, secondary hit}: the process is killed before EVERY filesystem call of the operation (and after the last); then a fresh process snapshots the tree and runs get/touch/ensure (of the crashed operation's key: it must end up in the write cache)/put/set/ensure/get; when the crash left the operation's staging file behind, a further process publishes it again with set (success consumes it, even when it is already a hard link of the entry); two hours later (scripted clock) another process writes with maintenance firing. Oracles: key-named files complete and read-only, debris only under .kismet_temp, all later operations succeed with normal semantics, young debris left alone, old debris of a maintained directory reclaimed; everything compared with the model crashed at the same call. Non-trivial = the boundary lies after the first and before the last mutating call.",
            "samples": samples, "traces_validated_against_impl": agree}
     if not ctx.quick():
         rc, o = C.coqchk(PROPS)
